@@ -13,8 +13,8 @@
      rule may fire on any clause in any order; a rule may fire again — re-matching only adds
      clauses that are already there).
    * Steps whose soundness rests on external components are NOT given rules here; they enter
-     RulesFacts.v as Section variables with named hypotheses (H_smt, H_sem, H_insert, H_numq,
-     H_infeasible, H_predinst).
+     SolveSound.v as Section variables with named hypotheses (H_smt, H_sem, H_insert, H_numq,
+     H_infeasible).
 
    Rule                    Python (isla/solver.py)
    r_and / r_or / r_nnf    establish_invariant: convert_to_dnf(convert_to_nnf(c)), split_disjunction,
@@ -33,8 +33,9 @@
    eval_step (r_eval_true) instantiate_structural_predicates (predicate evaluated to true on the
                            CURRENT tree, conjunct dropped), ground SMT conjuncts evaluated to true,
                            semantic predicates evaluated to true.  Python applies this step WITHOUT a
-                           stability side condition; RulesFacts.v proves soundness under [stable] and
-                           shows that nth is not stable (the recorded defect K_nth). *)
+                           stability side condition; SolveSound.v / PredStable.v prove soundness under
+                           [stable], prove [stable] for every structural predicate except nth, and
+                           show that nth is not stable (the recorded defect K_nth). *)
 From ISLA Require Export Sound.
 
 (* ---- completion: t' is t with every open leaf replaced by some tree with the same label ---- *)
